@@ -3,13 +3,13 @@
 import json, os, sys
 sys.path.insert(0, os.path.dirname(os.path.abspath(__file__)))
 from checks_conf import CHECKS, META
-from manifest_meta import HOOK_COMMITS, NOT_APPLICABLE_REASON
+from manifest_meta import HOOK_COMMITS, NOT_APPLICABLE_REASON, CLAIMED
 
 props = [json.loads(l) for l in open("properties.jsonl")]
 checks, na = [], []
 for p in props:
     pid = p["id"]
-    if pid in CHECKS and pid in META:
+    if pid in CHECKS and pid in META and pid in CLAIMED:
         m = META[pid]
         checks.append({
             "property_id": pid,
